@@ -98,7 +98,7 @@ def main():
                      'kind_free_text': 'deterministic simulator: seeded plan generator, seams for entropy/clock/caches/global RNGs, settrace fault injector, reference-model oracles, ddmin shrinker, replay files'}],
         'checks': checks,
         'not_applicable': na,
-        'notes': 'See DESIGN.md (§0 verdicts, §8 as built) and README.md. 17 of 20 properties are pure functions of their inputs and are not simulation targets; C07, C10, C11 are simulated. Four genuine defects found on the unchanged tree were repaired by fix: commits in /repo and are listed as fixed entries in known_findings.json (they suppress nothing). selftest/ holds the determinism and sensitivity self-tests with their last results; seeded/ holds 84 independently written breakages and what caught them.',
+        'notes': 'See DESIGN.md (§0 verdicts, §8 as built) and README.md. 17 of 20 properties are pure functions of their inputs and are not simulation targets; C07, C10, C11 are simulated. Four genuine defects found on the unchanged tree were repaired by fix: commits in /repo and are listed as fixed entries in known_findings.json (they suppress nothing). selftest/ holds the determinism and sensitivity self-tests with their last results; seeded/ holds 93 independently written breakages and what caught them.',
     }
     with open(os.path.join(HERE, 'MANIFEST.json'), 'w') as f:
         json.dump(m, f, indent=1)
